@@ -461,7 +461,7 @@ func (rs *runState) send6(task, step int, op core.Op) {
 					why = "already-spent-by-" + map[bool]string{true: "confirmed", false: "unconfirmed"}[x.node.Confirmed(sp) >= 0]
 				}
 			}
-			x.fail("ineligible-input:"+why+":"+kind, "%s(scope=%s account=%d minconf=%d) spends %v which is not a currently unspent wallet output (%s)", kind, sc, account, minconf, opnt, why)
+			x.fail("ineligible-input:"+why+":"+kind+x.lostSpender(opnt), "%s(scope=%s account=%d minconf=%d) spends %v which is not a currently unspent wallet output (%s)", kind, sc, account, minconf, opnt, why)
 			return
 		}
 		prevOuts[opnt] = &wire.TxOut{Value: c.value, PkScript: c.pkScript}
@@ -501,7 +501,7 @@ func (rs *runState) send6(task, step int, op core.Op) {
 				} else if d := x.txHeightInWallet(ph); d != -2 {
 					state = fmt.Sprintf("recorded by the wallet at height %d", d)
 				}
-				x.fail("input-reused-after-publish:"+kind, "input %v of the already published tx %s is used again by %s (the earlier tx is %s; node: mempool=%v confirmed=%d)",
+				x.fail("input-reused-after-publish:"+kind+x.lostSpender(pin.PreviousOutPoint), "input %v of the already published tx %s is used again by %s (the earlier tx is %s; node: mempool=%v confirmed=%d)",
 					pin.PreviousOutPoint, short(ph), short(tx.TxHash()), state, x.node.InMempool(ph), x.node.Confirmed(ph))
 				return
 			}
@@ -645,4 +645,36 @@ func (rs *runState) importdry(step int, op core.Op) {
 	}
 	x.env.Count("probe.account-import-preview")
 	x.env.Logf("%d importdry scope=%d ok", step, sc.Purpose)
+}
+
+// lostSpender names one specific circumstance in the signature of a reuse
+// violation (so that it can be listed as a known finding without covering
+// others): the output's spender S is confirmed on the node's best chain, pays
+// nothing to the wallet, is unknown to the wallet, was confirmed when the
+// wallet was last started and was un-confirmed by a reorg since. The watch
+// list the wallet hands its backend at start-up (OutputsToWatch) does not
+// contain outputs spent by confirmed transactions, chain.Interface has no call
+// to add outpoints later, so when the reorg confirms S again in another block
+// a backend that matches spends by outpoint (or cannot derive the script from
+// the witness: taproot key spends) never reports it; at the next restart the
+// re-broadcast of the "unconfirmed" S is answered "already confirmed", the
+// wallet drops S and offers its input again.
+func (x *world) lostSpender(op wire.OutPoint) string {
+	sp, spent := x.node.SpentBy(op)
+	if !spent || x.node.Confirmed(sp) < 0 || !x.unconfirmedByReorgAfterStart[sp] {
+		return ""
+	}
+	if x.txHeightInWallet(sp) != -2 {
+		return ""
+	}
+	tx := x.node.Tx(sp)
+	if tx == nil {
+		return ""
+	}
+	for _, o := range tx.TxOut {
+		if _, own := x.byScript[string(o.PkScript)]; own {
+			return ""
+		}
+	}
+	return ":spender-without-change-unconfirmed-by-a-reorg-after-restart"
 }
